@@ -12,7 +12,7 @@ package decorator
 // r.cursorAtNewLine the cursor value directly after the last line break emitted.
 
 //@ pred (r *FileRestorer) inv() bool {
-//@   r.base <= r.cursor && r.cursorAtNewLine <= r.cursor &&
+//@   1 <= r.base && r.base <= r.cursor && r.cursorAtNewLine <= r.cursor &&
 //@   len(r.lines) >= 1 && r.lines[0] == 0 &&
 //@   (forall i int :: 0 <= i && i + 1 < len(r.lines) ==> r.lines[i] < r.lines[i+1]) &&
 //@   (r.lines[len(r.lines)-1] + r.base < r.cursor || (len(r.lines) == 1 && r.cursor == r.base))
@@ -120,6 +120,8 @@ package decorator
 //@   (forall k dst.Node :: {has(r.Ast.Nodes, k)} has(r.Ast.Nodes, k) ==> ref(k) != 0 && allocated(ref(k)) && ref(r.Ast.Nodes[k]) != 0 && allocated(ref(r.Ast.Nodes[k]))) &&
 //@   (forall a ast.Node :: {has(r.Dst.Nodes, a)} has(r.Dst.Nodes, a) ==> ref(a) != 0 && allocated(ref(a)))
 //@ }
+
+//@ pure func hasDst(r *FileRestorer, a ast.Node) bool { has(r.Dst.Nodes, a) }
 
 //@ func (r *FileRestorer) restoreNode
 //@ requires inv: r.inv()
